@@ -142,10 +142,16 @@ func (c *AppenderRefs) sortByLevel() {
 		return iCode < jCode
 	})
 
-	// Adjust MaxLevel to match the next appender's MinLevel if needed
+	// Adjust MaxLevel to match the next higher MinLevel if needed.
+	// References sharing the same MinLevel do not clip each other.
 	for i := len(c.AppenderRefs) - 1; i >= 1; i-- {
 		if c.AppenderRefs[i-1].Level.MaxLevel == MaxLevel {
-			c.AppenderRefs[i-1].Level.MaxLevel = c.AppenderRefs[i].Level.MinLevel
+			for j := i; j < len(c.AppenderRefs); j++ {
+				if c.AppenderRefs[j].Level.MinLevel.code > c.AppenderRefs[i-1].Level.MinLevel.code {
+					c.AppenderRefs[i-1].Level.MaxLevel = c.AppenderRefs[j].Level.MinLevel
+					break
+				}
+			}
 		}
 	}
 }
